@@ -650,7 +650,10 @@ def sentryWF (e : SEntry) : Bool :=
 /-- Values an engine can hold: every length below 2^32, members / fields distinct, no empty list or
     sorted set (the engine deletes those), stream IDs increasing.  An EMPTY stream is allowed
     (`XADD` + `XDEL` leaves one) and so is a list whose first element is the marker string — those two
-    are the deviation predicates `isEmptyStream` / `startsWithMarker` below, not exclusions. -/
+    are the deviation predicates `isEmptyStream` / `startsWithMarker` below, not exclusions.
+    The theorems ask for well-formedness of the value AS WRITTEN, `valueWF (escValue esc v)`: with the
+    escape rule a list headed by a reserved string is written with one more element, and it is that
+    count which must stay below 2^32 (without the rule `escValue false v = v`). -/
 def valueWF : Value → Bool
   | .str b => strOk b
   | .list xs => !xs.isEmpty && decide (xs.length < two32) && xs.all strOk
